@@ -514,7 +514,14 @@ class ExprMixin:
             return z3.Exists([j], z3.And(0 <= j, j < st.hread("$llen", r), z3.Select(items, j) == self.to_z(st, item)))
         if k == "str" or (k is None and cont.z is not None and hint_kind(item.th) == "str" and st.pure):
             f = z3.Function("str_contains", IntS, IntS, z3.BoolSort())
-            return f(V.s(cont.z), V.s(self.to_z(st, item)))
+            general = f(V.s(cont.z), V.s(self.to_z(st, item)))
+            lit = self.literal_of(cont) if k == "str" else None
+            if lit is not None and hint_kind(item.th) == "str":
+                # a one-character string is contained in a literal iff its code point is one of the literal's
+                isid = V.s(item.z)
+                one = z3.Or([sat(isid, 0) == ord(ch) for ch in lit]) if lit else z3.BoolVal(False)
+                return z3.If(slen(isid) == 1, one, general)
+            return general
         raise Unsupported(f"`in` on {cont}", node)
 
     def ev_BinOp(self, node, st):
@@ -527,6 +534,9 @@ class ExprMixin:
     def binop(self, st: State, op, a: Val, b: Val, node) -> List[Out]:
         ka, kb = hint_kind(a.th), hint_kind(b.th)
         if isinstance(op, ast.Add) and (ka == "str" or kb == "str"):
+            la, lb = self.literal_of(a), self.literal_of(b)
+            if la is not None and lb is not None:
+                return [Out("val", st, vstr_lit(la + lb))]
             f = z3.Function("str_concat", IntS, IntS, IntS)
             x, y = V.s(a.z), V.s(b.z)
             r = f(x, y)
@@ -575,6 +585,13 @@ class ExprMixin:
         outs = list(raises)
         tmpl = "".join("{}" if isinstance(v, ast.FormattedValue) else str(v.value) for v in node.values)
         for s, vals in res:
+            lits = [self.literal_of(v) for v in vals]
+            if all(x is not None for x in lits):
+                # every interpolated value is a known string literal: the result is a literal too
+                it_ = iter(lits)
+                text = "".join(next(it_) if isinstance(v, ast.FormattedValue) else str(v.value) for v in node.values)
+                outs.append(Out("val", s, vstr_lit(text)))
+                continue
             tid = INTERN.string_id(tmpl)
             f = z3.Function(f"fmt{len(vals)}", *([IntS] + [V] * len(vals) + [IntS]))
             r = f(z3.IntVal(tid), *[self.to_z(s, v) for v in vals]) if vals else z3.IntVal(tid)
@@ -582,6 +599,18 @@ class ExprMixin:
                 s.assume(slen(r) >= 0)
             outs.append(Out("val", s, Val(V.S(r), th=TH("str"))))
         return outs
+
+    def literal_of(self, v: Val) -> Optional[str]:
+        if v is None or v.z is None or hint_kind(v.th) != "str":
+            return None
+        z = z3.simplify(v.z)
+        if z3.is_app(z) and z.decl().name() == "S":
+            a = z.arg(0)
+            if z3.is_int_value(a):
+                return INTERN.string_of_id(a.as_long())
+            if z3.is_app(a) and a.decl().name() == "str_char" and z3.is_int_value(a.arg(0)):
+                return chr(a.arg(0).as_long())
+        return None
 
     def ev_FormattedValue(self, node, st):
         return self.ev(node.value, st)
@@ -674,6 +703,12 @@ class ExprMixin:
     def join_hints(self, st: State, a: TH, b: TH) -> TH:
         if repr(a) == repr(b):
             return a
+        if a.name == "Any":
+            return b
+        if b.name == "Any":
+            return a
+        if hint_kind(a) == hint_kind(b) and hint_kind(a) in ("list", "dict", "set") and len(a.args) == len(b.args):
+            return TH(a.name, [self.join_hints(st, x, y) for x, y in zip(a.args, b.args)])
         if hint_kind(a) == "obj" and hint_kind(b) == "obj":
             mod = st.func.module if st.func is not None else None
             ca, cb = front.find_class(a.name, mod), front.find_class(b.name, mod)
@@ -788,7 +823,7 @@ class ExprMixin:
             sid = V.s(base.z)
             n = slen(sid)
             i = self.norm_index(self.as_int(idx), n)
-            ch = z3.Function("str_char", IntS, IntS)  # 1-char string with that code point
+            from .sym import str_char as ch  # canonical 1-char string with that code point
             outs = []
             for s2, ok in (self.branch(st, z3.And(0 <= i, i < n)) if not st.pure else [(st, True)]):
                 if ok:
